@@ -256,6 +256,11 @@ class Contract:
         return fr
 
 
+class IterV:
+    def __init__(self, items):
+        self.items, self.pos = list(items), 0
+
+
 class PyvcExecutor(StmtMixin, Executor):
     def __init__(self, contracts, lib, prop, shapes=None, cfg=None):
         Executor.__init__(self, contracts, lib, prop, cfg)
@@ -369,6 +374,18 @@ class PyvcExecutor(StmtMixin, Executor):
             return d
         if n == "slice":
             return slice(*args)
+        if n == "iter":
+            return IterV(self.iter_concrete(args[0], st))
+        if n == "next":
+            it = args[0]
+            if not isinstance(it, IterV):
+                raise Undecided("next() of a non-iterator")
+            if it.pos >= len(it.items):
+                if len(args) > 1:
+                    return args[1]
+                raise PyRaise("StopIteration")
+            it.pos += 1
+            return it.items[it.pos - 1]
         if n == "enumerate":
             return EnumV(args[0], args[1] if len(args) > 1 else kwargs.get("start", 0))
         if n == "zip":
